@@ -1757,7 +1757,7 @@ struct Value {
     }
 
     inline void Remove(const StringT &key) const noexcept {
-        Remove(key.First(), string_.Length());
+        Remove(key.First(), key.Length());
     }
 
     inline void Remove(const Char_T *key) const noexcept {
